@@ -124,14 +124,17 @@ class World(EventDispatcher):
             f'Entity ID must be hashble, found {entity}, which is not')
 
         component_type = type(component)
+
+        # Manage replaced components. This comes before indexing the new
+        # component, as removal frees the type's index entry when the
+        # replaced component was the only one of its type
+        if component_type in self._entities.get(entity, {}):
+            self.remove_component(entity, component_type)
+
         if component_type not in self._components:
             self._components[component_type] = set()
 
         self._components[component_type].add(entity)
-
-        # Manage replaced components
-        if component_type in self._entities.get(entity, {}):
-            self.remove_component(entity, component_type)
 
         if entity not in self._entities:
             self._entities[entity] = {}
